@@ -1,6 +1,6 @@
 SPECIFICATION Spec
 CONSTANTS
-  Accts = {"eoa", "fwd", "dbl"}
+  Accts = {"eoa", "fwd", "dbl", "mix"}
   Paths = {"direct", "forward", "lookalike", "fwdrevert"}
   Ops = {"delegate", "undelegate", "withdraw", "vote", "redelegate", "votew"}
   Amts = {0, 1, 9}
